@@ -216,7 +216,13 @@ func RunRapid(t *rapid.T, kind string, cfg Cfg, g GenCfg, after func(e *Engine, 
 			{Kind: "handle", Method: e.Cfg.Methods[0], Pattern: "/w/{p}/x"},
 			{Kind: "handle", Method: e.Cfg.Methods[0], Pattern: "/w/*{c}/y"},
 			{Kind: "update", Method: e.Cfg.Methods[0], Pattern: "/w/{p}"},
+			{Kind: "handle", Method: e.Cfg.Methods[0], Pattern: "/w/{p}/y"},
+			{Kind: "handle", Method: e.Cfg.Methods[0], Pattern: "/w/{p}/z/{q}"},
 		}}
+		h.Ops = append(h.Ops, op)
+		fail(e.Step(op))
+		// a registration that conflicts with five routes at once (same position, another parameter name)
+		op = Op{Kind: "handle", Method: e.Cfg.Methods[0], Pattern: "/w/{other}"}
 		h.Ops = append(h.Ops, op)
 		fail(e.Step(op))
 		stats.Class("history-starts-on-a-node-with-55-children")
